@@ -109,7 +109,12 @@ def run(ctx, pq):
             cmds.append(("wr_defs_nonull", dpv, n))
             meta.append(("nonull", dpv, n, None, bytes(block)))
             if n <= 2 ** 14:
-                for m in mask_patterns(rng, n):
+                pats = mask_patterns(rng, n)
+                if ctx.quick() and n > 1025:
+                    # the extracted writer model is quadratic in the mask length (1 s at 8192): quick tier = the alternating and the
+                    # random pattern around 8192 and one random pattern at 2^14; every pattern in the thorough tier
+                    pats = pats[-2:] if n < 2 ** 14 else pats[-1:]
+                for m in pats:
                     vals = np.arange(n, dtype="float64")
                     vals[[i for i, b in enumerate(m) if not b]] = np.nan
                     block, out = writer.make_definitions(pd.Series(vals), False, datapage_version=dpv)
@@ -169,3 +174,175 @@ def run(ctx, pq):
         if not got or list(got[0]) != want:
             ctx.fail({"component": "encode_dict", "what": "spec decoder disagrees"}, dict(case, block=impl.hex()[:400]),
                      "spec hybrid decoder (lenient) on the written index block: %r" % (C._short(mo, 300),))
+
+
+# ============================================================================================
+# wave 3: scratch buffers of the run headers (Impl/WScratch.v) and the time-zone text (Impl/TzText.v)
+
+def translate_scratch(ctx):
+    """translators/scratch2coq.py on the working tree's writer.py -> GenScratch.v + genproofs/GenScratchProofs.v.
+    Returns {root: smallest capacity} or None (fallback: the hand model with the pinned capacity 10)."""
+    import shutil
+    src = os.path.join(C.REPO, "fastparquet", "writer.py")
+    p = subprocess.run([C.PY, os.path.join(C.VERIF, "translators", "scratch2coq.py"), src],
+                       stdout=subprocess.PIPE, stderr=subprocess.PIPE)
+    if p.returncode != 0:
+        ctx.notes.append("translator_fallback: scratch2coq refused the source (%s); hand model (capacity 10) + fake-length "
+                         "correspondence used" % p.stderr.decode()[-300:].strip())
+        ctx.extra["translator_scratch2coq"] = "fallback"
+        return None
+    txt = p.stdout.decode()
+    gen = os.path.join(ctx.gen_dir, "GenScratch.v")
+    if not os.path.exists(gen) or open(gen).read() != txt:
+        open(gen, "w").write(txt)
+    ok, out = C.coqc(gen, extra_q=[(ctx.gen_dir, "PqGen")])
+    ctx.obligation("GenScratch.v (scratch-buffer capacities regenerated from writer.make_definitions / encode_dict) compiles", ok, out)
+    if ok:
+        gp = os.path.join(ctx.gen_dir, "GenScratchProofs.v")
+        shutil.copy(os.path.join(C.COQ, "genproofs", "GenScratchProofs.v"), gp)
+        ctx.coq_file(gp, extra_q=[(ctx.gen_dir, "PqGen")])
+    import re
+    caps = {}
+    for root, f, k in re.findall(r'\("(\w+)", "(\w+)", (\d+)\)', txt):
+        caps[root] = min(caps.get(root, 10 ** 9), int(k))
+    ctx.extra["translator_scratch2coq"] = "translated"
+    ctx.extra["scratch_capacities"] = caps
+    return caps
+
+
+class _NoValues:
+    """stands for the numpy array of the codes: only its item size is asked for; the bytes are never looked at"""
+
+    def __init__(self, k):
+        import numpy as np
+        self.dtype = np.dtype("int%d" % (8 * k))
+
+    def tobytes(self):
+        return b""
+
+
+class FakeCodes:
+    """a column of n dictionary codes of k bytes each for writer.encode_dict, without the n * k bytes"""
+
+    def __init__(self, n, k):
+        self.values = _NoValues(k)
+        self._n = n
+
+    def __len__(self):
+        return self._n
+
+
+def header_sizes():
+    """row counts at which the varint of the run header grows by a byte (1..9 bytes) and the i32 limit"""
+    ns = []
+    for k in range(1, 9):
+        ns += [2 ** (7 * k - 1) - 1, 2 ** (7 * k - 1), 2 ** (7 * k - 1) + 1]
+    return sorted(set(ns + [2 ** 31 - 1, 2 ** 31]))
+
+
+def nonull_block(n, dpv):
+    """the REAL make_definitions on a column of n rows without nulls (a zero-stride view: no n bytes anywhere)"""
+    import numpy as np
+    from fastparquet import writer
+    block, out = writer.make_definitions(np.broadcast_to(np.int8(1), (n,)), True, datapage_version=dpv)
+    return bytes(block)
+
+
+def run_scratch(ctx, pq, caps):
+    from fastparquet import writer
+    cap_md = (caps or {}).get("make_definitions", 10)
+    cap_ed = (caps or {}).get("encode_dict", 10)
+    cmds, meta = [], []
+    for n in header_sizes():
+        for dpv in (1, 2):
+            try:
+                impl = nonull_block(n, dpv)
+            except Exception as e:      # noqa: a rewrite that looks at the data: this tie is not possible, the static one remains
+                ctx.notes.append("fake-length call of make_definitions not possible: %s: %s" % (type(e).__name__, str(e)[:100]))
+                ctx.extra["scratch_fake_length_make_definitions"] = "not possible"
+                break
+            cmds.append(("wr_defs_nonull_cap", cap_md, dpv, n))
+            cmds.append(("wr_defs_nonull", dpv, n))
+            meta.append(("md", dpv, n, impl))
+    for k in (1, 2, 4):
+        for g in [2 ** (7 * j - 1) + d for j in range(1, 5) for d in (-1, 0)] + [2 ** 28 - 1]:
+            n = 8 * g
+            if n >= 2 ** 31:
+                n = 2 ** 31 - 1
+            try:
+                impl = bytes(writer.encode_dict(FakeCodes(n, k), None))
+            except Exception as e:      # noqa
+                ctx.notes.append("fake-length call of encode_dict not possible: %s: %s" % (type(e).__name__, str(e)[:100]))
+                ctx.extra["scratch_fake_length_encode_dict"] = "not possible"
+                break
+            cmds.append(("wr_dict_head_cap", cap_ed, k, n))
+            cmds.append(("wr_dict_head_cap", 64, k, n))
+            meta.append(("ed", k, n, impl))
+    outs = pq.batch(cmds)
+    for i, (kind, a, n, impl) in enumerate(meta):
+        capped, full = bytes(outs[2 * i]), bytes(outs[2 * i + 1])
+        if kind == "md":
+            case = {"make_definitions": "nonull", "dpv": a, "n": n}
+            ctx.case(case)
+            ctx.count("header_bytes", len(impl) - (5 if a == 1 else 1))
+            ctx.correspondence("wr_defs_nonull_v%d_cap (capacity from the source) ~ writer.make_definitions on a zero-stride column (bytes)" % a,
+                               case, capped, impl)
+            if n < 2 ** 31 and impl != full:
+                ctx.fail({"component": "make_definitions", "what": "run header scratch buffer", "n_ge_2_27": n >= 2 ** 27}, case,
+                         "definition block of a page of %d rows without nulls is %s; the block that decodes to %d ones "
+                         "(C01_defs_nonull_v%d_roundtrip) is %s" % (n, impl.hex(), n, a, full.hex()))
+        else:
+            case = {"encode_dict": "int%d" % (8 * a), "n": n, "codes": "fake length"}
+            ctx.case(case)
+            ctx.correspondence("wr_dict_head_cap (capacity from the source) ~ head of writer.encode_dict for a column of n codes (bytes)",
+                               case, capped, impl)
+            if impl != full:
+                ctx.fail({"component": "encode_dict", "what": "run header scratch buffer"}, case,
+                         "width byte + run header for %d codes is %s, must be %s" % (n, impl.hex(), full.hex()))
+
+
+def tz_seconds(ctx):
+    rng = ctx.rng
+    mins = [60 * m for m in range(-1439, 1440)]
+    secs = [d * (b + e) for b in (0, 60, 3600, 86340) for e in (1, 30, 59) for d in (1, -1)]
+    secs += [rng.randrange(-86399, 86400) for _ in range(60 if ctx.quick() else 2000)]
+    return mins + sorted(set(s for s in secs if -86400 < s < 86400 and s % 60))
+
+
+def tz_observe(s):
+    """REAL code for the fixed offset of s seconds: (str(tz), text recorded by get_column_metadata, what tz_to_dt_tz makes of it)"""
+    import datetime
+    import pandas as pd
+    from fastparquet import util, dataframe
+    tz = datetime.timezone(datetime.timedelta(seconds=s))
+    col = pd.Series(pd.DatetimeIndex([], dtype=pd.DatetimeTZDtype("ns", tz)), name="t")
+    text = util.get_column_metadata(col, "t")["metadata"]["timezone"]
+    try:
+        z = dataframe.tz_to_dt_tz(text)
+        if isinstance(z, str):
+            back = [b"name", z.encode()]
+        else:
+            off = z.utcoffset(None)
+            back = [b"fixed", off.days * 86400 + off.seconds] if not off.microseconds else [b"fixed-us", str(off)]
+    except Exception as e:     # noqa
+        back = [b"raises"]
+    return str(tz), text, back
+
+
+def run_tz(ctx, pq):
+    allsecs = tz_seconds(ctx)
+    obs = [tz_observe(s) for s in allsecs]
+    texts = pq.batch([("tz_text", s) for s in allsecs])
+    parses = pq.batch([("tz_parse", o[1].encode()) for o in obs])
+    for s, (name, text, back), mt, mp in zip(allsecs, obs, texts, parses):
+        case = {"tz_seconds": s}
+        ctx.case(case, trivial=False)
+        ctx.count("tz_offset_class", "zero" if s == 0 else ("sub-minute part" if s % 60 else ("negative below one hour" if -3600 < s < 0 else "whole minutes")))
+        ctx.correspondence("py_tz_name ~ str(datetime.timezone) (external behaviour)", case, bytes(mt[0]), name.encode())
+        ctx.correspondence("tz_meta_text ~ util.get_column_metadata(...)['metadata']['timezone']", case,
+                           bytes(mt[1][0]) if mt[1] else None, text.encode())
+        ctx.correspondence("tz_parse ~ dataframe.tz_to_dt_tz", case, mp, back)
+        ok = (back == [b"fixed", s]) or (s == 0 and back == [b"name", b"UTC"])
+        if not ok:
+            ctx.fail({"component": "tz text", "sub_minute": bool(s % 60), "negative_below_one_hour": -3600 < s < 0}, case,
+                     "zone %s is recorded as %r and read back as %r" % (name, text, back))
